@@ -5,7 +5,7 @@ XOR distance because it is only ever extended by binary-search insertion of targ
 content (own id, searched hash, that node's token, configured port from the builder), that every
 value of an accepted answer is forwarded on every path (end-game or not), and that the end-game
 queries every candidate not yet queried. Convergence to the globally closest 8 is NOT decided."""
-from . import lookup, lib
+from . import lookup, common, lib
 from .lib import Sym, strip_transparent, is_param, field_chain, root_of, find_calls, fmt
 
 EXPLANATION = __doc__
@@ -57,3 +57,5 @@ def run(ctx, res):
     lookup.rule_forward(ctx, res)
     lookup.rule_items_and_tokens(ctx, res)
     lookup.rule_endgame_covers(ctx, res)
+    lookup.rule_round_nonempty(ctx, res)
+    common.rule_send_transmits(ctx, res)
